@@ -111,10 +111,15 @@ def open_circuit_impedance(network: Network, node1: str, node2: str, node_index_
     return Z[i1][i1]
 
 def element_impedance(network: Network, element: str, node_index_mapper: map.NetworkMapper = map.default_node_mapper) -> complex:
+    node1, node2 = network[element].node1, network[element].node2
+    remaining_branches = [b for b in network.branches if b.id != element]
+    remaining_nodes = {n for b in remaining_branches for n in (b.node1, b.node2)}
+    if node1 != node2 and not {node1, node2} <= remaining_nodes: # nothing else is attached to one of the terminals (e.g. the only branch at the reference node)
+        return np.inf
     return open_circuit_impedance(
-        network=trf.remove_element(network, element),
-        node1=network[element].node1,
-        node2=network[element].node2,
+        network=Network(remaining_branches, node_zero_label=node2), # the port's second node becomes the reference anyway
+        node1=node1,
+        node2=node2,
         node_index_mapper=node_index_mapper
     )
 
